@@ -16,6 +16,7 @@ import types
 
 import c04_gen
 import common
+import siblings
 from common import Check, main_wrapper
 
 
@@ -314,12 +315,51 @@ def main():
         return out
 
     lists = fixed_lists()
-    nC = 2400 if not ck.thorough else 24000
+    nC = 1400 if not ck.thorough else 14000      # base lists; 75 % bring one sibling list (history)
     if only is not None:
         lists, nC = [], 0
     if only == "C":
         acc = [a for a in accs if a.value == replay["accelerator"]][0]
         lists = [(acc, [c04_gen.rebuild_op(api, d) for d in replay["ops"]], "replay:" + str(replay.get("origin")))]
+        if replay.get("history_base_ops"):
+            # a sibling list is replayed with its history: the base list goes through the generator first
+            lists.insert(0, (acc, [c04_gen.rebuild_op(api, d) for d in replay["history_base_ops"]], "replay-history-base"))
+    # ---- history: after a base list, a list that differs from it in ONE field of ONE operation is generated in the same process
+    # (the sibling right after its base inside one list, or the list with the operation replaced = a later API call), followed by a
+    # probe DMA that writes the last bytes of the varied operation's feature map, so that a stale address range / SHRAM footprint /
+    # block dependency taken from the base shows as a missing wait (the Lean model and Spec are history-free)
+    SIB_FIELDS = ["strides", "layout", "region", "tiles", "address", "activation", "lut_index", "padding", "kernel_size", "kernel_stride",
+                  "kernel_dilation", "block_traversal", "block_config", "weights", "biases", "ofm_depth", "ifm_depth",
+                  "dma_src", "dma_dest", "dma_length"]
+    from ethosu.vela import register_command_stream_generator as rcsg
+
+    def sib_accept(arch):
+        def f(op):
+            if isinstance(op, api.NpuDmaOperation):
+                return True
+            try:
+                rcsg.get_arch_block_config(op, getattr(op, "block_traversal", api.NpuBlockTraversal.DEPTH_FIRST), arch)
+                return True
+            except AssertionError:
+                return False
+        return f
+
+    def probe_for(op):
+        """DMA that overwrites the last 16-byte granule of one feature map of `op` (harness arithmetic for the end of tile 0)"""
+        if isinstance(op, api.NpuDmaOperation) or rng.random() < 0.2:
+            return []
+        fms = [getattr(op, nm) for nm in ("ofm", "ifm", "ifm2") if getattr(op, nm) is not None
+               and not (nm == "ifm2" and op.ifm2_scalar is not None)]
+        strided = [f for f in fms if f.strides is not None]
+        fm = rng.choice(strided or fms)
+        end = siblings.fm_hull_end(api, fm)
+        at = (end - 1) // 16 * 16
+        if at < fm.tiles.addresses[0]:
+            return []
+        src = api.NpuAddressRange(0, c04_gen.align(rng.randrange(0, 1 << 16), 16), 16)
+        return [api.NpuDmaOperation(src, api.NpuAddressRange(fm.region, at, 16))]
+
+    sib_base = {}
     for i in range(nC):
         acc = accs[i % len(accs)]
         g = c04_gen.OpGen(rng, api, npu_accs[acc], archs[acc], arena=rng.choice([1 << 12, 1 << 14, 1 << 16]))
@@ -328,6 +368,16 @@ def main():
             ck.count("C_gen_" + k, v)
         if ops:
             lists.append((acc, ops, f"random:{i}"))
+            if rng.random() < 0.75:
+                opts = {"lut_only": True, "lut_slots": g.lut_slots or list(range(8)), "regions": g.regions, "address_single_tile": True,
+                        "dtype_sign": False}
+                for label, place, ops2 in siblings.sibling_lists(rng, api, ops, archs[acc], 1, fields=SIB_FIELDS, opts=opts,
+                                                                 accept=sib_accept(archs[acc]), probe=probe_for):
+                    tag = f"sibling-of-random:{i}:{label}:{place}"
+                    lists.append((acc, ops2, tag))
+                    sib_base[tag] = ops
+                    ck.count("C_sibling_lists")
+                    ck.count("C_sibling_field_" + label.split("@")[0].split("+")[0])
     reqsC, ownersC = [], []
     for acc, ops, tag in lists:
         try:
@@ -380,6 +430,10 @@ def main():
         r = {"accelerator": acc.value, "ops": [c04_gen.describe_op(api, o) for o in ops], "origin": tag,
              "lean_answer": outsC[i][:1500], "how": "api.npu_generate_register_command_stream(ops, accelerator); request = c04ops line",
              "request_head": reqsC[i][:400]}
+        if tag in sib_base:
+            r["history_base_ops"] = [c04_gen.describe_op(api, o) for o in sib_base[tag]]
+            r["history"] = "this list was generated in the same process right after `history_base_ops`, from which it differs in the " \
+                           "field named in `origin` (+ a probe DMA); a fresh process may not reproduce the verdict without the base"
         r.update(extra or {})
         return r
 
